@@ -605,6 +605,9 @@ class TransactionEncode:
                     for key in keys:
                         rows_T[key].append(row.get(key,None))
 
+                #rows without any field have no column that tells how many there were, so their numbering is written
+                if rows and not keys: rows_T['index'] = list(range(1,len(rows)+1))
+
                 yield encoder(["I", item[1], { "_packed": rows_T }])
 
 class TransactionResult:
